@@ -58,6 +58,30 @@ impl Reopen for MemFile {
     }
 }
 
+/// In-memory file whose `read` stops at every multiple of `page` bytes (a legal short read: a paged
+/// or chunked source, a socket, a Python file-like object): callers must loop or use read_exact.
+pub struct PagedMem {
+    pub inner: MemFile,
+    pub page: u64,
+}
+impl PagedMem {
+    pub fn new(b: &[u8], page: u64) -> PagedMem {
+        PagedMem { inner: MemFile::new(b), page }
+    }
+}
+impl Read for PagedMem {
+    fn read(&mut self, buf: &mut [u8]) -> io::Result<usize> {
+        let room = (self.page - self.inner.pos % self.page) as usize;
+        let n = buf.len().min(room);
+        self.inner.read(&mut buf[..n])
+    }
+}
+impl Seek for PagedMem {
+    fn seek(&mut self, to: SeekFrom) -> io::Result<u64> {
+        self.inner.seek(to)
+    }
+}
+
 /// In-memory file whose k-th read/seek (counted from the last `arm`) fails once with an I/O error.
 /// The control block is shared with the harness so that it can arm, disarm and count.
 #[derive(Default)]
@@ -115,6 +139,10 @@ pub enum C03Case {
     Histories { file: WigCase, depth: usize, cached: bool },
     /// n one-item blocks through the caching reader: crosses the 5000-entry cache reset
     CacheReset { n: u32 },
+    /// readers obtained by `reopen()` from one reader over a real file (ReopenableFile), each used
+    /// by its own OS thread at the same time (supplementary sampling over OS schedules: the readers
+    /// must not share a file cursor or any other state)
+    ReopenThreads { threads: usize, compress: bool, cached: bool },
 }
 
 pub struct C03;
@@ -499,6 +527,85 @@ fn c03_cache_reset(n: u32, out: &mut Outcome) {
     }
 }
 
+fn c03_reopen_threads(threads: usize, compress: bool, cached: bool, out: &mut Outcome) {
+    use std::io::Write as _;
+    let n = 400u32;
+    let items: Vec<WItem> = (0..n).map(|i| WItem { s: 3 * i, e: 3 * i + 2, vb: ((i % 13) as f32 + 0.25).to_bits() }).collect();
+    let mut o = Opts::base();
+    o.ips = 4;
+    o.bs = 4;
+    o.compress = compress;
+    o.zoom = Zoom::Manual(vec![]);
+    let ch = WChrom { name: "t".into(), len: 3 * n + 5, items };
+    let c = WigCase { chroms: vec![ch.clone()], extra_sizes: vec![], allow_ooo: false, opts: o };
+    let Some(bytes) = do_write_wig(&c, out) else { return };
+    let mut tf = tempfile::NamedTempFile::new().expect("tempfile");
+    tf.write_all(&bytes).unwrap();
+    tf.flush().unwrap();
+    let path = tf.path().to_path_buf();
+    let tags = vec![if cached { "cached".to_string() } else { "plain".to_string() }];
+    let r = guarded(|| {
+        let first = BigWigRead::open_file(&path).expect("open_file");
+        let problems: Arc<std::sync::Mutex<Vec<String>>> = Arc::new(std::sync::Mutex::new(vec![]));
+        let nq = 1500usize;
+        macro_rules! spawn_all {
+            ($first:expr) => {{
+                let first_reader = $first;
+                let mut readers = vec![];
+                for _ in 1..threads {
+                    readers.push(first_reader.reopen().expect("reopen"));
+                }
+                readers.push(first_reader);
+                let mut hs = vec![];
+                for (ti, mut rd) in readers.into_iter().enumerate() {
+                    let ch = ch.clone();
+                    let problems = problems.clone();
+                    hs.push(std::thread::spawn(move || {
+                        let mut x = 0x9e3779b97f4a7c15u64.wrapping_mul(ti as u64 + 1);
+                        for q in 0..nq {
+                            // a fixed pseudo-random walk per thread (deterministic queries; the OS picks the interleaving)
+                            x = x.wrapping_mul(6364136223846793005).wrapping_add(1442695040888963407);
+                            let s = ((x >> 33) % ch.len as u64) as u32;
+                            let w = 1 + ((x >> 20) % 60) as u32;
+                            let e = (s + w).min(ch.len);
+                            let res = std::panic::catch_unwind(std::panic::AssertUnwindSafe(|| rd.get_interval(&ch.name, s, e).map_err(|e| format!("{}", e)).and_then(collect_wig)));
+                            let got = match res {
+                                Ok(g) => g,
+                                Err(_) => Err("panic".to_string()),
+                            };
+                            let want = ref_interval(&ch, s, e);
+                            if got.as_ref().ok() != Some(&want) {
+                                let mut p = problems.lock().unwrap();
+                                if p.len() < 3 {
+                                    p.push(format!("thread {} query {} [{},{}): got {:?}, expected {} values", ti, q, s, e, got.as_ref().map(|g| g.len()), want.len()));
+                                }
+                                return;
+                            }
+                        }
+                    }));
+                }
+                for h in hs {
+                    let _ = h.join();
+                }
+            }};
+        }
+        if cached {
+            spawn_all!(first.cached());
+        } else {
+            spawn_all!(first);
+        }
+        out.count("reopened_reader_threads", threads as u64);
+        out.count("supplementary_sampling_concurrent_queries", (threads * nq) as u64);
+        let p = problems.lock().unwrap();
+        if !p.is_empty() {
+            out.fail("reopened_readers_interfere", &tags, p.join("; "));
+        }
+    });
+    if let Err(p) = r {
+        out.fail("read_panicked", &tags, p);
+    }
+}
+
 fn q_opts() -> Vec<Opts> {
     let mut v = vec![];
     for (ips, bs, compress) in [
@@ -612,7 +719,8 @@ impl Check for C03 {
             singles
                 .chain(multi)
                 .chain(hist)
-                .chain(std::iter::once(C03Case::CacheReset { n: 5003 })),
+                .chain(std::iter::once(C03Case::CacheReset { n: 5003 }))
+                .chain([(8usize, true, false), (8, false, true), (3, true, true), (16, false, false)].into_iter().map(|(threads, compress, cached)| C03Case::ReopenThreads { threads, compress, cached })),
         )
     }
     fn run(&self, case: &C03Case, out: &mut Outcome) {
@@ -639,6 +747,10 @@ impl Check for C03 {
             C03Case::CacheReset { n } => {
                 out.nontrivial = true;
                 c03_cache_reset(*n, out);
+            }
+            C03Case::ReopenThreads { threads, compress, cached } => {
+                out.nontrivial = true;
+                c03_reopen_threads(*threads, *compress, *cached, out);
             }
         }
     }
